@@ -54,8 +54,8 @@ DRAFT_CONTRACTS[F + 'ApplyIterSpec.__iter__'] = dict(
     types={'self': 'Ref[ApplyIterSpec]'},
     yields='Int',
     requires={'well-formed-spec': WELL},
-    # background arithmetic (proved in lemmas/Background.lean: mod_in_period): inside the q-th period the remainder
-    # is the distance to the start of the period
+    # background arithmetic (an unproved axiom of this DRAFT: would have to be proved separately before the contract is
+    # registered): inside the q-th period the remainder is the distance to the start of the period
     axioms={'L-mod-in-period': "forall('v:Int', 'q:Int', implies(self.n_every > 0 and q * self.n_every <= v and v < (q + 1) * self.n_every, v % self.n_every == v - q * self.n_every))"},
     defs={'hit': (('x',), HIT),
           'inblock': (('x', 'j'), 'self.offsets[j][0] <= x % self.n_every and x % self.n_every < self.offsets[j][0] + self.offsets[j][1]')},
